@@ -237,7 +237,7 @@ func fieldNameOf(fa *ssa.FieldAddr) string {
 	if !ok {
 		return ""
 	}
-	return st.Field(fa.Field).Name()
+	return core.Active.CanonFieldName(st.Field(fa.Field))
 }
 
 // appendedAlloc: for  append(arr, elem)  find the local struct whose value is appended.
@@ -617,7 +617,7 @@ func c09r4(c *core.Ctx) {
 		aidOK, iidOK := false, false
 		core.Instrs(g, func(i ssa.Instruction) {
 			b, ok := i.(*ssa.BinOp)
-			if !ok || b.Op != token.EQL {
+			if !ok || (b.Op != token.EQL && b.Op != token.NEQ) { // the polarity of the match is C09-R4 lookup-returns-match
 				return
 			}
 			for _, pair := range [][2]ssa.Value{{b.X, b.Y}, {b.Y, b.X}} {
@@ -627,6 +627,29 @@ func c09r4(c *core.Ctx) {
 				if _, ok := core.FieldLoad(pair[0], tChar, "ID"); ok && pair[1] == ssa.Value(g.Params[2]) {
 					iidOK = true
 				}
+			}
+		})
+		// polarity: a characteristic is handed back only where both comparisons came out equal (== ... return, or != ... continue)
+		matchFact := func(typ string, par ssa.Value) core.CondFact {
+			return core.CmpFact(func(x, y ssa.Value) (bool, bool) {
+				for _, pair := range [][2]ssa.Value{{x, y}, {y, x}} {
+					if _, ok := core.FieldLoad(pair[0], typ, "ID"); ok && pair[1] == par {
+						return true, false
+					}
+				}
+				return false, false
+			})
+		}
+		core.Instrs(g, func(i ssa.Instruction) {
+			r, ok := i.(*ssa.Return)
+			if !ok || len(res(r)) != 1 || core.IsNilConst(res(r)[0]) {
+				return
+			}
+			if !core.Dominated(r, matchFact(mod+"/accessory.Accessory", g.Params[1])) {
+				aidOK = false
+			}
+			if !core.Dominated(r, matchFact(tChar, g.Params[2])) {
+				iidOK = false
 			}
 		})
 		c.Check(aidOK && iidOK, "lookup-keys@"+fname(g), g.Pos(), "lookup matches aid against Accessory.ID and iid against Characteristic.ID", "the lookup does not match (aid, iid) against (Accessory.ID, Characteristic.ID)")
